@@ -5,6 +5,5 @@ CONSTANTS
   MaxRoots = 1
   RootFilter = {"users", "allPets", "nestedType"}
   Mut = "none"
-SPECIFICATION Spec
-CONSTRAINT GenConstraint
+SPECIFICATION GenSpec
 CHECK_DEADLOCK FALSE
